@@ -27,8 +27,8 @@ Definition xor_be (n : nat) (a b : bytes) : bytes := be_bytes n (Z.lxor (of_be a
 Definition mem_byte (b : bytes) (l : list byte) : bool :=
   match b with [x] => existsb (beq x) l | _ => false end.
 
-Inductive err := EEnc | EKey | EValue | EAssert | EOther.
-(* EncodingError | BKeyError | ValueError | AssertionError | anything else *)
+Inductive err := EEnc | EKey | EValue | EAssert | EOther | EType.
+(* EncodingError | BKeyError | ValueError | AssertionError | anything else | TypeError *)
 Inductive res (A : Type) := Ok (a : A) | Err (e : err).
 Arguments Ok {A} a.
 Arguments Err {A} e.
@@ -51,6 +51,32 @@ Definition truthy (o : option Z) : bool := match o with Some z => negb (z =? 0) 
 (* get_key_format: len(key) == 58 and key[:2] == '6P' (reached for a str that is not 64/66/128/130 long) *)
 Definition lib_is_protected (s : bytes) : bool :=
   Nat.eqb (length s) 58 && bytes_eqb (firstn 2 s) [x36; x50].
+
+(* ---------------------------------------------------------------- the passphrase ARGUMENT
+   Every entry point accepts a Python value: a str (text T) or a bytes object.  What reaches scrypt:
+     bip38_encrypt, plain branch of bip38_decrypt : "if isinstance(password, str): password = password.encode('utf-8')"
+     EC branch of bip38_decrypt, bip38_intermediate_password : the value goes to scrypt_hash unchanged and the scrypt
+       module encodes a str as UTF-8 (_ensure_bytes) and takes bytes as they are.
+   NO other transformation (no un-hexlify, strip, case folding, truncation at NUL): [arg_bytes].
+   The BIP: the passphrase text is NFC-normalised, then UTF-8 encoded; a caller who passes bytes has done that. *)
+Inductive pyarg (T : Type) := PStr (t : T) | PBytes (b : bytes).
+Arguments PStr {T} t.
+Arguments PBytes {T} b.
+
+Definition arg_bytes {T} (utf8 : T -> bytes) (a : pyarg T) : bytes :=
+  match a with PStr t => utf8 t | PBytes b => b end.
+Definition arg_nfc {T} (nfc : T -> T) (a : pyarg T) : pyarg T :=
+  match a with PStr t => PStr (nfc t) | PBytes b => PBytes b end.
+(* the bytes the BIP feeds to scrypt for this argument *)
+Definition spec_pw_bytes {T} (utf8 : T -> bytes) (nfc : T -> T) (a : pyarg T) : bytes :=
+  arg_bytes utf8 (arg_nfc nfc a).
+(* two arguments denote the same passphrase when the BIP derives the same scrypt input from them *)
+Definition same_passphrase {T} (utf8 : T -> bytes) (nfc : T -> T) (a b : pyarg T) : Prop :=
+  spec_pw_bytes utf8 nfc a = spec_pw_bytes utf8 nfc b.
+
+(* the argument is already in the form the BIP normalises it to (otherwise: recorded class passphrase_not_nfc) *)
+Definition nfc_stable {T} (utf8 : T -> bytes) (nfc : T -> T) (a : pyarg T) : Prop :=
+  match a with PStr t => utf8 (nfc t) = utf8 t | PBytes _ => True end.
 
 Section Bip38.
 
@@ -319,6 +345,9 @@ Definition spec_decrypt_noec (pfx : bytes) (body : bytes) (pw : P) : option (Z *
    address version of the network the key was generated for *)
 Definition spec_decrypt_ec (pfx : bytes) (body : bytes) (pw : P) : option (Z * bool) :=
   let flag := sl 2 3 body in
+  (* "bits 0x10 and 0x08 ... must be 0", the two top bits are 00 for EC-multiplied keys, "remaining bits are
+     reserved and must be 0": only 0x20 (compressed) and 0x04 (lot/sequence) may be set *)
+  if negb (mem_byte flag [x00; x04; x20; x24]) then None else
   let compressed := flag_bit 32 flag in
   let has_lot := flag_bit 4 flag in
   let addresshash := sl 3 7 body in
@@ -382,6 +411,32 @@ Definition spec_intermediate (pw : P) (ls : option (Z * Z)) (owner_salt : bytes)
   end.
 
 End Bip38.
+
+(* ---------------------------------------------------------------- entry points taking str-or-bytes arguments *)
+(* bip38_intermediate_password(passphrase: str | bytes, ...): the argument checks (ValueError) come first; then
+   unicodedata.normalize("NFC", passphrase) raises TypeError for a bytes object *)
+Definition lib_intermediate_arg (T : Type) (utf8 : T -> bytes) (nfc : T -> T)
+    (scrypt : bytes -> bytes -> Z -> Z -> Z -> nat -> bytes) (H : bytes -> bytes) (b58e : bytes -> bytes)
+    (pubser : bool -> Z -> option bytes) (a : pyarg T) (lot sequence : option Z) (owner_salt : bytes) : res bytes :=
+  match lib_intermediate (pyarg T) (arg_bytes utf8) (arg_nfc nfc) scrypt H b58e pubser a lot sequence owner_salt, a with
+  | Err EValue, _ => Err EValue
+  | _, PBytes _ => Err EType
+  | r, PStr _ => r
+  end.
+
+(* bip38_encrypt(private_hex, address: str | bytes, password: str | bytes, flagbyte) called directly *)
+Definition lib_bip38_encrypt_call (T : Type) (utf8 : T -> bytes)
+    (scrypt : bytes -> bytes -> Z -> Z -> Z -> nat -> bytes) (aes_enc : bytes -> bytes -> bytes)
+    (H : bytes -> bytes) (b58e : bytes -> bytes) (priv : bytes) (address pw : pyarg T) (flag : byte) : bytes :=
+  lib_bip38_encrypt scrypt aes_enc H b58e priv (arg_bytes utf8 address) (arg_bytes utf8 pw) flag.
+
+(* the flag byte of a decoded 43-byte string is one the BIP defines for its identifier
+   (plain: C0 / E0; EC-multiplied: 00 / 04 / 20 / 24).  The library also accepts plain 20 and the EC-multiplied
+   flags with the reserved bits 08 / 10 set and E0..F8: "laxer than the BIP", outside the agreement theorem. *)
+Definition bip38_flag_defined (d : bytes) : bool :=
+  if bytes_eqb (sl 0 2 d) pfx_ec then mem_byte (sl 2 3 d) [x00; x04; x20; x24]
+  else mem_byte (sl 2 3 d) [xc0; xe0].
+Definition is_ec_key (d : bytes) : bool := bytes_eqb (sl 0 2 d) pfx_ec.
 
 (* ---------------------------------------------------------------- entropy use of the generating calls *)
 (* The process draws numbered chunks from os.urandom: the k-th call of os.urandom in the process returns
